@@ -146,6 +146,28 @@ example : sessionS 3 2 .initial { cap := DEFAULT_CAP, data := str "foo: bar\n" }
     [.unexpectedEof, .unexpectedEof, .unexpectedEof] := by
   decide +kernel
 
+/-- **invalid data is final**: once a call has reported an invalid message, every later call on the
+connection reports it again and consumes nothing — whatever the transport still delivers (`cs'`) and
+however it ends (`t'`). No later caller is handed what was left of the rejected reply (C01), and the
+connection cannot come back to life after data outside the grammar (C08, C09). -/
+theorem C10_invalid_is_final_async (cs : List Bytes) (t : Term) (σ : BState) (buf : Bytes)
+    (h : (recvLoopA σ buf cs t).1 = .invalid) (cs' : List Bytes) (t' : Term) :
+    (recvLoopA (recvLoopA σ buf cs t).2.2.2 (recvLoopA σ buf cs t).2.1 cs' t').1 = .invalid := by
+  rw [recvLoopA_invalid_forever cs t σ buf h cs' t']
+
+theorem C10_invalid_is_final_blocking (f : Nat) (cs : List Bytes) (t : Term) (σ : BState) (b : SBuf)
+    (h : (recvLoopS f σ b cs t).1 = .invalid) (f' : Nat) (cs' : List Bytes) (t' : Term) :
+    (recvLoopS (f' + 1) (recvLoopS f σ b cs t).2.2.2 (recvLoopS f σ b cs t).2.1 cs' t').1 = .invalid := by
+  rw [recvLoopS_invalid_forever f cs t σ b h f' cs' t']
+
+/-- non-vacuity: a key with a digit inside a reply; the rest of that reply and a complete further
+response arrive afterwards and are never delivered -/
+example : (recvLoopA .initial [] [str "Artist: x\nMP3GAIN_MINMAX: 1\n"] .eof).1 = .invalid ∧
+    (recvLoopA (recvLoopA .initial [] [str "Artist: x\nMP3GAIN_MINMAX: 1\n"] .eof).2.2.2
+      (recvLoopA .initial [] [str "Artist: x\nMP3GAIN_MINMAX: 1\n"] .eof).2.1
+      [str "Title: y\nOK\n", str "volume: 1\nOK\n"] .eof).1 = .invalid := by
+  decide +kernel
+
 /-- e.g. a stream that ended after a complete field line: unexpected EOF, three times in a row -/
 example : sessionA 3 2 .initial (str "foo: bar\n") [] .eof = [.unexpectedEof, .unexpectedEof, .unexpectedEof] := by
   decide +kernel
